@@ -94,6 +94,8 @@ ALL = [
     ('P45-equation-with-blank-text-nodes', ['C02', 'C07'], lambda: docx(p(r('«1»see '), '<m:oMath><m:r><m:t>a</m:t></m:r><m:r><m:t xml:space="preserve"> </m:t></m:r><m:r><m:t>b</m:t></m:r></m:oMath>', r('«2» here'))
         + p(r('«3»left'), '<m:oMath><m:r><m:t xml:space="preserve"> </m:t></m:r></m:oMath>', r('«4»right')))),
     ('P15-links-different-anchors', ['C10', 'C06'], lambda: docx(p(link('r:id="rId9" w:anchor="a"', r('«1»x')), link('r:id="rId9" w:anchor="b"', r('«2»y'))), docrels=LINK)),
+    ('P46-footers-whose-numbers-differ-in-length', ['C09', 'C03'], lambda: docx(p(r('«1»body')), docrels=[('rId2', 'footer', 'footer2.xml'), ('rId3', 'footer', 'footer10.xml')],
+                                                                 extra={'word/footer2.xml': f'<w:ftr {NS}>' + p(r('«2»second')) + '</w:ftr>', 'word/footer10.xml': f'<w:ftr {NS}>' + p(r('«3»tenth')) + '</w:ftr>'})),
     ('P16-word-word', ['C09'], lambda: docx(p(r('body')), docrels=[('rId2', 'header', 'word/h.xml')], extra={'word/word/h.xml': f'<w:hdr {NS}>' + p(r('head-in-word-word')) + '</w:hdr>'})),
     ('P18-range-end-without-start', ['C13', 'C12'], lambda: docx(p(r('a'), '<w:commentRangeEnd w:id="5"/>', r('b', '<w:b/>')))),
     ('P21-comment-ids-mismatch', ['C13', 'C12'], lambda: docx(p('<w:commentRangeStart w:id="0"/>', r('a'), '<w:commentRangeEnd w:id="0"/>'), comments=COM(7))),
